@@ -133,7 +133,12 @@ def run_impl(case):
             first = next(gen2, None)
             if first is not None:
                 i = next(k for k, x in enumerate(L) if x is first)
-                if i + 1 < len(L):
+                if i + 1 < len(L) and (len(L) + i) % 2 == 0:
+                    # `for r in c.of_type(T): if ...: c.remove(r)`: the element the iteration stands on goes
+                    c.remove(first)
+                    expect = [x for x in L[i + 1 :] if isinstance(x, t)]
+                    what = "the element the iteration was paused on was removed"
+                elif i + 1 < len(L):
                     c.remove(L[i + 1])
                     expect = [x for x in L[i + 2 :] if isinstance(x, t)]
                     what = "the element after the paused one was removed"
